@@ -112,6 +112,7 @@ pub fn run(rep: &'static Report) {
     let seed = rep.seed;
     kra::note(rep);
     rep.set_rule("E-GRID vs REF: keys x passwords x salts (lock bytes == documented format, lock/unlock round trip in both directions between Rust and REF), all ordered password pairs, every single-bit change of the 84-byte blob, every string length 0..130 and every single-character substitution from a class alphabet. distinct non-trivial = distinct (key, password, salt) / (password pair) / (bit) / (string) points");
+    rep.rule_add("CLI: extract-pub pairs over a UTF-8 and a byte-password alphabet, 673 bit flips, change-pass to every word.");
     rep.assume("key/salt values from seed-derived alphabets plus all-zero and all-one keys; one scrypt(32768,8,1) per point bounds the grid");
     let ids = idents(seed);
     let keys: Vec<[u8; 32]> = vec![ids[0].sk, [0xff; 32], [0u8; 32]];
